@@ -122,3 +122,69 @@ fn c05_finalize_input() {
     kani::cover!(true, "end");
     std::mem::forget(strat);
 }
+
+// ---------------------------------------------------------------------------------------------
+// marking at one level: create_sd_claims_object on {"a":1,"b":2} with SDJWTDisclosure::new replaced
+// by the disclosure hook. The path is concrete per harness (a symbolic path makes the two marking
+// branches build differently shaped heaps, which CBMC cannot merge in time); that sd_for_key /
+// next_level behave correctly for EVERY path is what the harnesses above decide.
+use crate::verif_oracle as ho;
+
+fn mk_issuer() -> SDJWTIssuer {
+    SDJWTIssuer {
+        sign_alg: "ES256".to_string(),
+        add_decoy_claims: false,
+        extra_header_parameters: None,
+        issuer_key: EncodingKey::model(jsonwebtoken::AlgorithmFamily::Ec, 7),
+        holder_key: None,
+        inner: Default::default(),
+        all_disclosures: Vec::new(),
+        sd_jwt_payload: Default::default(),
+        signed_sd_jwt: String::new(),
+        serialized_sd_jwt: String::new(),
+    }
+}
+
+fn mark_with_path(path: &str, a_hidden: bool, b_hidden: bool) {
+    ho::hash_on(2, b'd');
+    ho::disclosure_on();
+    let mut iss = mk_issuer();
+    let mut claims = JMap::new();
+    put(&mut claims, "a", jnum(1));
+    put(&mut claims, "b", jnum(2));
+    let mut paths: Vec<&str> = Vec::with_capacity(1);
+    paths.push(path);
+    let out = iss.create_sd_claims_object(&claims, Strat::Custom(paths));
+    let o = match &out { JValue::Object(o) => o, _ => { assert!(false, "C05.m0 object stays object"); return; } };
+    assert!(o.contains_key("a") == !a_hidden, "C05.m1 member a is in clear iff no path designates it");
+    assert!(o.contains_key("b") == !b_hidden, "C05.m2 member b is in clear iff no path designates it");
+    assert!(o.contains_key("_sd") == (a_hidden || b_hidden), "C05.m3 _sd present iff something is hidden");
+    let n = (a_hidden as usize) + (b_hidden as usize);
+    assert!(iss.all_disclosures.len() == n, "C05.m4 exactly one disclosure per hidden member; a path naming no claim has no effect");
+    if n == 1 {
+        let sd = match o.get("_sd") { Some(JValue::Array(x)) => x, _ => { assert!(false, "C05.m5 _sd is a list"); return; } };
+        #[allow(static_mut_refs)]
+        unsafe {
+            assert!(sd.len() == 1 && streq(sd[0].as_str().unwrap(), &ho::DISC_HASHES[0]), "C05.m6 the hidden member is represented by the digest of its disclosure, at its own level");
+            assert!(ho::DISC_NAMES[0].as_deref() == Some(if a_hidden { "a" } else { "b" }), "C05.m7 the disclosure carries the hidden member's name");
+            assert!(ho::DISC_VALUES[0] == jnum(if a_hidden { 1 } else { 2 }), "C05.m8 the disclosure carries the hidden member's value");
+        }
+    }
+    kani::cover!(true, "end");
+    std::mem::forget(out); std::mem::forget(iss); std::mem::forget(claims);
+}
+
+#[kani::proof]
+#[kani::unwind(4)]
+#[kani::stub(alloc::fmt::format, fmt_stub)]
+fn c05_mark_path_a() { mark_with_path("a", true, false); }
+
+#[kani::proof]
+#[kani::unwind(4)]
+#[kani::stub(alloc::fmt::format, fmt_stub)]
+fn c05_mark_path_b() { mark_with_path("b", false, true); }
+
+#[kani::proof]
+#[kani::unwind(4)]
+#[kani::stub(alloc::fmt::format, fmt_stub)]
+fn c05_mark_path_names_no_claim() { mark_with_path("c", false, false); }
